@@ -118,7 +118,16 @@ def cases(draw):
                 break
             post.append(d)
         name = NV[s][1] if full[0] else substr(draw, NV[s][1])
-        item = {name: pre + [{"$not": [x]}] + post}
+        notnode = {"$not": [x]}
+        # the $not as a child of another operand-level operator (one child: the same meaning; $and_any_order with the next operand's
+        # description as second child: the two in either order)
+        wrap = draw(st.sampled_from([None, None, None, None, "$and", "$or", "$and_any_order", "$and_any_order-2", "$and_any_order-2"]))
+        if wrap == "$and_any_order-2" and post:
+            notnode = {"$and_any_order": [post[0], notnode] if draw(st.booleans()) else [notnode, post[0]]}
+            post = post[1:]
+        elif wrap in ("$and", "$or", "$and_any_order"):
+            notnode = {wrap: [notnode]}
+        item = {name: pre + [notnode] + post}
         pattern = [item]
         i, j = s, s + 1
         if s > 0 and draw(st.booleans()):
